@@ -144,6 +144,40 @@ func readerQueries(an *analysis.Spec, sw *spec.Swagger, scribble bool) map[strin
 		}
 		return canon(sortedStrs(out))
 	}
+	qs["OperationMethods"] = func() string {
+		out := []string{}
+		for m, byPath := range an.Operations() {
+			out = append(out, fmt.Sprintf("%s:%d", m, len(byPath)))
+		}
+		return canon(sortedStrs(out))
+	}
+	qs["OperationIDsNil"] = func() string { return canon(an.OperationIDs() == nil) }
+	// look-ups that find nothing: methods without any operation, unknown paths
+	lookPaths := []string{"/no/such/path"}
+	for p := range an.AllPaths() {
+		lookPaths = append(lookPaths, p)
+	}
+	sort.Strings(lookPaths)
+	if len(lookPaths) > 3 {
+		lookPaths = lookPaths[:3]
+	}
+	for pi, p := range lookPaths {
+		for mi, m := range []string{"GET", "put", "Post", "DELETE", "options", "HEAD", "patch"} {
+			m, p := m, p
+			sfx := fmt.Sprintf("?%d.%d", pi, mi)
+			qs["OperationFor"+sfx] = func() string {
+				op, ok := an.OperationFor(m, p)
+				return canon([]any{ok, op != nil})
+			}
+			qs["SafeParamsFor"+sfx] = func() string {
+				out := []string{}
+				for k, q := range an.SafeParamsFor(m, p, func(spec.Parameter, error) bool { return true }) {
+					out = append(out, k+"="+q.Name)
+				}
+				return canon(sortedStrs(out))
+			}
+		}
+	}
 	// per operation queries
 	type opk struct {
 		m, p string
